@@ -413,18 +413,43 @@ def generate():
         bail("trailing_event: write branch changed")
     out.append("Definition trailing_cmp : lcmp := %s.   (* remaining_events (after decrement) %s 0 -> write *)" % (op, op))
     out.append("Definition trailing_decrement : Z := 1.")
+    # where a trailing reporter stops claiming to be active: in stop_recording (at the moment it unsubscribes) or only in
+    # finished_recording (one eventual turn later, after the files are closed).  The model interprets the value: while a
+    # stopped-but-still-active reporter exists, declare_incident hands every trigger to its new_trigger() (a no-op).
     sr = P.find_def(im, "IncidentReporter.stop_recording")
-    for frag in ("self.still_recording = False", "self.active = False", "self.logger.removeObserver(self.trailing_event)",
-                 "eventually(self.finished_recording)"):
-        if frag not in U(sr):
-            bail("stop_recording no longer contains " + frag)
     fr = P.find_def(im, "IncidentReporter.finished_recording")
+    srb = [U(x) for x in sr.body]
     frb = [U(x) for x in fr.body]
+    clear = "self.active = False"
+    where = [n for n, b in (("AtStop", srb), ("AtFinish", frb)) if clear in b]
+    if len(where) != 1 or (srb + frb).count(clear) != 1:
+        bail("the trailing reporter does not clear self.active exactly once in stop_recording / finished_recording")
+    want_sr = ["self.still_recording = False", "if self.timer and self.timer.active():\n    self.timer.cancel()",
+               "self.logger.removeObserver(self.trailing_event)", "eventually(self.finished_recording)"]
+    if [x for x in srb if x != clear] != want_sr:
+        bail("stop_recording changed: %r" % srb)
     want_fr = ["self.f2.close()", "move_into_place(self.abs_filename_bz2_tmp, self.abs_filename_bz2)", "self.f1.close()",
                "os.unlink(self.abs_filename)",
                "eventually(self.logger.incident_recorded, self.abs_filename_bz2, self.name, self.trigger)"]
-    if frb != want_fr:
+    if [x for x in frb if x != clear] != want_fr:
         bail("finished_recording changed: %r" % frb)
+    out.append("Inductive clear_point := AtStop | AtFinish.")
+    out.append("Definition active_cleared_at : clear_point := %s.   (* `self.active = False` sits in %s *)"
+               % (where[0], "stop_recording" if where[0] == "AtStop" else "finished_recording"))
+    ia = P.find_def(im, "IncidentReporter.is_active")
+    if [U(x) for x in ia.body] != ["return self.active"]:
+        bail("IncidentReporter.is_active changed")
+    if "self.active = True" not in U(P.find_def(im, "IncidentReporter.__init__")):
+        bail("IncidentReporter.__init__ no longer sets active = True")
+    gar = P.find_def(mod, "FoolscapLogger.get_active_incident_reporter")
+    want_gar = ["if self.active_incident_reporter_weakref:\n    ir = self.active_incident_reporter_weakref()\n"
+                "    if ir and ir.is_active():\n        return ir", "return None"]
+    if [U(x) for x in gar.body] != want_gar:
+        bail("get_active_incident_reporter changed: %r" % [U(x) for x in gar.body])
+    nt_ = P.find_def(im, "IncidentReporter.new_trigger")
+    if [U(x) for x in nt_.body if not (isinstance(x, ast.Expr) and isinstance(x.value, ast.Constant))] != ["pass"]:
+        bail("IncidentReporter.new_trigger is no longer a no-op")
+    out.append("Definition new_trigger_is_noop : bool := true.")
     out.append("Definition publish_by_rename_after_close : bool := true.")
 
     # ---- flogfile.py: one JSON line per event, nothing written when encoding fails
